@@ -140,12 +140,13 @@ class DeviceParameters(object):
         else:
             raise ValueError("The backend is neither a BackendV2 nor a FakeBackendV2 object")
 
-        self.T1 = [prop.t1(j) for j in self.qubits_layout]
-        self.T2 = [prop.t2(j) for j in self.qubits_layout]
-        self.p = [prop.gate_error('x', [j]) for j in self.qubits_layout]
-        self.rout = [prop.readout_error(j) for j in self.qubits_layout]
-        self.dt = [config.dt]
-        self.tm = [prop.readout_length(j) for j in self.qubits_layout]
+        # Some backends report a value as a JSON integer (e.g. the gate error 1 of a faulty qubit): store floats throughout
+        self.T1 = [float(prop.t1(j)) for j in self.qubits_layout]
+        self.T2 = [float(prop.t2(j)) for j in self.qubits_layout]
+        self.p = [float(prop.gate_error('x', [j])) for j in self.qubits_layout]
+        self.rout = [float(prop.readout_error(j)) for j in self.qubits_layout]
+        self.dt = [float(config.dt)]
+        self.tm = [float(prop.readout_length(j)) for j in self.qubits_layout]
         self.metadata = {
             "version": datetime.today().strftime('%Y%m%d'),
             "device": config.backend_name,
